@@ -78,7 +78,7 @@ func (c *Ctx) callsFn(in ssa.Instruction, keys ...string) bool {
 	}
 	for _, callee := range c.M.Callees(&call.Call) {
 		for _, k := range keys {
-			if c.M.Key(callee) == k {
+			if c.M.Key(callee) == k || callee == c.lookupFn(k) {
 				return true
 			}
 		}
@@ -153,7 +153,7 @@ func (c *Ctx) ruleObjectRules(rule string) {
 					found = true
 					for _, cond := range core.CondsAt(b) {
 						if t, ok := core.CommaOk(cond.V); ok {
-							if lk, ok := t.(*ssa.Lookup); ok && lk.X == ssa.Value(fn.Params[1]) && cond.True == spec.set {
+							if lk, ok := t.(*ssa.Lookup); ok && dataMapParam(fn) != nil && lk.X == ssa.Value(dataMapParam(fn)) && cond.True == spec.set {
 								okPol = true
 							}
 						}
@@ -322,7 +322,7 @@ func (c *Ctx) checkRuleRejects(rule string) {
 					continue
 				}
 				lk, isLk := t.(*ssa.Lookup)
-				if !isLk || lk.X != ssa.Value(fn.Params[1]) {
+				if !isLk || dataMapParam(fn) == nil || lk.X != ssa.Value(dataMapParam(fn)) {
 					continue
 				}
 				if c.elementOfGetter(lk.Index, spec.getter) {
@@ -390,7 +390,7 @@ func (c *Ctx) checkRuleRejects(rule string) {
 					continue
 				}
 				lk, isLk := t.(*ssa.Lookup)
-				if !isLk || lk.X != ssa.Value(fn.Params[1]) || !c.elementOfGetter(lk.Index, "RequiredIfNot") {
+				if !isLk || dataMapParam(fn) == nil || lk.X != ssa.Value(dataMapParam(fn)) || !c.elementOfGetter(lk.Index, "RequiredIfNot") {
 					continue
 				}
 				_ = ifi
@@ -1035,7 +1035,7 @@ func mustHoldGen(fn *ssa.Function, est func(core.Cond) bool, gen func(*ssa.Basic
 		}
 		_ = ifi
 		for _, cond := range core.EdgeConds(p, b) {
-			if est(cond) {
+			if core.Establishes(cond, est) {
 				return true
 			}
 		}
